@@ -32,7 +32,8 @@
 enum { ST_NONE, ST_READY, ST_DONE, ST_GONE };
 static const char *OPN[] = { "start", "lock", "unlock", "once", "fn", "end", "fork", "minit", "user" };
 
-struct thr { volatile int state; int op; void *obj; volatile int futex; };
+struct thr { volatile int state; int op; void *obj; volatile int futex; int npts; };
+unsigned long long (*vs_state_cb)(void) = 0;   /* harness-provided digest of the shared library state (for state-hashed exploration) */
 static struct thr T[MAXT];
 static int NT;
 static struct { void *addr; int owner; int count; } M[MAXM];
@@ -71,13 +72,18 @@ static int decide(int t) {
     int c = step < nprefix ? prefix[step] : 0;
     if (c >= n) { tr("{\"divergence\":1,\"step\":%d,\"choice\":%d,\"enabled\":%d}\n", step, c, n); _exit(78); }
     char eb[64]; int o = 0; for (int i = 0; i < n; i++) o += snprintf(eb + o, sizeof eb - o, "%s%d", i ? "," : "", E[i]);
-    tr("{\"s\":%d,\"t\":%d,\"op\":\"%s\",\"obj\":\"%lx\",\"re\":%d,\"en\":[%s],\"c\":%d}\n", step, t, t >= 0 ? OPN[T[t].op] : "-", t >= 0 ? (unsigned long)T[t].obj & 0xffffff : 0, (t >= 0 && n && E[0] == t), eb, c);
+    /* canonical state key: every thread's position (points passed) and status, the mutex model, the harness's view of the shared data */
+    unsigned long long key = 1469598103934665603ULL;
+    for (int i = 0; i < NT; i++) { key = (key ^ (unsigned long long)(T[i].npts * 4 + T[i].state)) * 1099511628211ULL; }
+    for (int i = 0; i < MAXM; i++) if (M[i].addr) { key = (key ^ (unsigned long long)((M[i].owner + 2) * 16 + M[i].count)) * 1099511628211ULL; }
+    if (vs_state_cb) key = (key ^ vs_state_cb()) * 1099511628211ULL;
+    tr("{\"s\":%d,\"k\":\"%016llx\",\"t\":%d,\"op\":\"%s\",\"obj\":\"%lx\",\"re\":%d,\"en\":[%s],\"c\":%d}\n", step, key, t, t >= 0 ? OPN[T[t].op] : "-", t >= 0 ? (unsigned long)T[t].obj & 0xffffff : 0, (t >= 0 && n && E[0] == t), eb, c);
     step++;
     if (step > horizon) { tr("{\"horizon\":1}\n"); _exit(79); }
     return E[c];
 }
 static void point(int t, int op, void *obj) {
-    T[t].op = op; T[t].obj = obj;
+    T[t].op = op; T[t].obj = obj; T[t].npts++;
     int nx = decide(t);
     if (nx == t) return;
     cur = nx; set_flag(&T[nx].futex);
